@@ -73,6 +73,15 @@ type Machine struct {
 	OblIDs        map[string]*OblStat
 	Debug         bool
 	curDecisions  []bool
+	// Derived model entries: name pattern with %d (value of Key under the
+	// model) -> value of Val; lets the native replay recompute symbolic choices
+	// that are functions of input values (uninterpreted hash).
+	Derived []DerivedEntry
+}
+
+type DerivedEntry struct {
+	Pattern  string
+	Key, Val *smt.Term
 }
 
 func NewMachine(s *smt.Solver) *Machine {
@@ -128,6 +137,7 @@ func (m *Machine) Explore(body func()) {
 		m.Trace = nil
 		m.lastModel = nil
 		m.curDecisions = nil
+		m.Derived = nil
 		m.Paths++
 		func() {
 			defer func() {
@@ -314,8 +324,7 @@ func (m *Machine) Assert(c *smt.Term, id, msg, kind string) bool {
 	case smt.Unsat:
 		m.Discharged++
 		st.Unsat++
-		m.addPC(c) // harmless, helps later simplification
-		return true
+		return true // pc already implies c: adding it would only bloat the path condition
 	case smt.Unknown:
 		st.Unknown++
 		m.Inconclusive(id, "solver unknown/timeout: "+msg)
@@ -326,6 +335,13 @@ func (m *Machine) Assert(c *smt.Term, id, msg, kind string) bool {
 	f := Failure{ID: id, Msg: msg, Kind: kind, Decisions: m.Decisions(), Trace: append([]string{}, m.Trace...)}
 	if mod != nil {
 		f.Model = mod.V
+		for _, d := range m.Derived {
+			k, ok1 := smt.Eval(d.Key, mod.V)
+			v, ok2 := smt.Eval(d.Val, mod.V)
+			if ok1 && ok2 {
+				f.Model[fmt.Sprintf(d.Pattern, k)] = v
+			}
+		}
 	}
 	dup := 0
 	for _, o := range m.Failures {
